@@ -30,6 +30,9 @@ type xformCase struct {
 	// (the event reports the integer value of the type that was found, or -1 when the classifier left none)
 	Entropy string `json:"entropy"` // entropy codec name in the context (selects TEXT variants)
 	Jobs    uint   `json:"jobs"`
+	// Warm: shape of a block that the SAME forward / inverse objects process first (context-free constructors only: a context would
+	// carry the data type of the first block over to the second, which the stream layer never does)
+	Warm string `json:"warm,omitempty"`
 }
 
 // harvested values of the (internal) data type enumeration, indexed by their integer value
@@ -231,6 +234,18 @@ func runXform(c xformCase) tr.Ev {
 		ev["fwd"] = "construct: " + err.Error()
 		return ev
 	}
+	var warmEnc []byte
+	if c.Warm != "" && strings.HasPrefix(c.T, "plain:") {
+		ev["shape"] = c.Shape + " after " + c.Warm
+		wsrc := gen.Make(c.Warm, c.Seed+77, c.Size)
+		wdst := make([]byte, t.MaxEncodedLen(len(wsrc)))
+		func() {
+			defer func() { recover() }()
+			if _, n, e := t.Forward(wsrc, wdst); e == nil && int(n) <= len(wdst) {
+				warmEnc = wdst[:n]
+			}
+		}()
+	}
 	maxLen := t.MaxEncodedLen(c.Size)
 	ev["maxLen"] = maxLen
 	dst := make([]byte, maxLen)
@@ -284,6 +299,12 @@ func runXform(c xformCase) tr.Ev {
 		pad = 512
 	}
 	out := make([]byte, bs+pad)
+	if warmEnc != nil {
+		func() {
+			defer func() { recover() }()
+			t2.Inverse(warmEnc, make([]byte, bs+pad))
+		}()
+	}
 	in := append([]byte(nil), dst[:outLen]...)
 	var invLen uint
 	var ierr error
@@ -401,6 +422,19 @@ func cmdXform(args []string) int {
 			add(t, shape, sizes[(ti*5+si*3)%12], -1, "NONE")
 			if *thorough {
 				add(t, shape, sizes[(ti*3+si*7+5)%len(sizes)]%(1<<20+17), -1, "NONE")
+			}
+		}
+	}
+	// second use of the same objects: another block first
+	{
+		warmPairs := [][2]string{{"text", "random"}, {"random", "text"}, {"html", "dnarep"}, {"runs", "text"}, {"text", "utf8"}, {"x86", "html"}, {"sparse", "runs"}, {"wav", "bmptile"}}
+		for ti, t := range plainNames {
+			for pi, pr := range warmPairs {
+				if !*thorough && (ti+pi)%2 != 0 {
+					continue
+				}
+				cases = append(cases, xformCase{ID: id, T: t, Shape: pr[1], Warm: pr[0], Size: []int{5000, 70000, 20000}[(ti+pi)%3], Seed: *seed*1009 + int64(id), Hint: -1, Entropy: "NONE", Jobs: 1})
+				id++
 			}
 		}
 	}
